@@ -47,6 +47,20 @@ type Ctx struct {
 	// quiet: do not print (witness mode)
 	Quiet bool
 	cur   string // current rule
+	memo  map[string]interface{}
+}
+
+// Memo caches an expensive derived model for the lifetime of the run.
+func (c *Ctx) Memo(key string, f func() interface{}) interface{} {
+	if c.memo == nil {
+		c.memo = map[string]interface{}{}
+	}
+	if v, ok := c.memo[key]; ok {
+		return v
+	}
+	v := f()
+	c.memo[key] = v
+	return v
 }
 
 func NewCtx(prop, tier, repo, verif string) *Ctx {
